@@ -285,7 +285,7 @@ func c04b(c *Ctx) {
 		}
 		want := mkDNF([]string{"+(" + k + " == 0)"}, []string{"+" + jm})
 		// ignore loop-membership literals (range condition)
-		dd := dropAtoms(d, func(a string) bool { return strings.Contains(a, " < builtin:len(") })
+		dd := dropAtoms(d, func(a string) bool { return isRangeTest(a) })
 		c.Check(k != "" && jm != "" && dnfEquiv(dd, want), name+"/label-iff-entry-or-registered", c.W.Pos(call.Pos()), "a chunk's label is rendered exactly when it is chunk 0 or was registered as a jump target", "renderLabel is reached under ["+pretty(dd.String())+"], expected exactly (chunkID == 0) || jumpChunks[chunkID] for the chunk being rendered ("+pretty(recv)+")")
 		if jumpMap != nil && jm != "" {
 			// the map looked up is the one the closure writes
